@@ -69,6 +69,16 @@ z = [y for y in ys]
 w = [(a, b) for a in ys for b in ys]
 def g(k): return [k for k in [k]]
 t = (u := 5) + u
+k2 = 3
+while k2: k2 = k2 - 1
+v3 = 0
+for i3 in ys: v3 = v3 + i3
+if v3: c4 = 1
+else: c4 = 2
+print(c4); c4 = 3; print(c4)
+def h(n5):
+    while n5 > 0: n5 -= 1; m5 = n5
+    return m5 if n5 else (m5 := 0)
 ''',
     'pep695-and-match': '''def generic[T](arg: T) -> T: return arg
 class Box[T]: pass
@@ -113,7 +123,7 @@ print(%(verdict)r)
          bounded='4 programs holding every binding construct (imports of every form over one and several lines, every parameter kind, tuple / starred / '
                  'chained / annotated targets, for / with / except / comprehension / walrus / lambda / def / class / async def, PEP 695 headers, match '
                  'captures) in conventional and awkward layouts (continuation lines inside an indented block, tabs and runs of blanks before a name, '
-                 '`;`-joined statements, one-line compound statements); every binding of all_names, every W01 / W02, location() from every read')
+                 '`;`-joined statements, one-line compound statements); every binding of all_names, every W01 / W02, location() from every read (cursor after the first and after the last character), including reads with several alternative bindings on the line of the cursor')
 def binding_positions(run):
     """BOUNDED stand-in: the text at every reported position is the bound identifier; all_names, lint and location agree.  Not counted as proved."""
     import logging
@@ -164,7 +174,7 @@ def binding_positions(run):
             # go-to-definition from every read of a source-bound name, cursor at the end of the identifier
             for n in ast.walk(tree):
                 if isinstance(n, ast.Name) and isinstance(n.ctx, ast.Load) and n.id in declared:
-                    cur = (n.lineno, n.col_offset + len(n.id))
+                  for cur in sorted(set([(n.lineno, n.col_offset + len(n.id)), (n.lineno, n.col_offset + 1)])):
                     try:
                         locs = A.location(project, text, cur)
                     except Exception as e:
